@@ -423,7 +423,7 @@ Outcome check_c05a(const Case &c, Stats &st) {
 }
 
 std::vector<std::string> num_domains(const Tier &t) {
-  return domains_with(0, CAP_ARRAY | CAP_REGION, !t.thorough);
+  return domains_with(0, CAP_ARRAY | CAP_REGION | CAP_BV, !t.thorough);
 }
 
 PropertyRegistrar reg_c01({"C01", "sim_prog",
